@@ -77,6 +77,7 @@ def gen_cases(seed, tier, insts):
         if len(exts) > cap: exts = rnd.sample(exts, cap)
         for ext in exts:
             for c in variants(inst, ext, 2 if not thorough else 4, 'exhaustive-small'):
+                if c.str is not None and max(c.str + [0]) > C.hi(t): continue      # every value of an op line must be a value of the index type
                 c.ops = list(std_ops)
                 if r > 0:
                     for k in range(r): c.ops.append(('stride', str(k)))
